@@ -41,7 +41,7 @@ CHECKS = {
              "zoo trees incl. falsy children, shared objects, long tuples); callbacks assumed pure.",
         design="5/C05"),
     "C06": dict(
-        technique="Lean 4 proof: Tree tables built from one dfs pass answer every upward query exactly as the root-first chain dictates (induction over the dfs stream / chains) + differential correspondence vs real pyoak.tree.Tree",
+        technique="Lean 4 proof: Tree tables built from one dfs pass answer every upward query exactly as the root-first chain dictates (induction over the dfs stream / chains) + differential correspondence vs real pyoak.tree.Tree; `class Tree` (__init__ and every query method) is REGENERATED from tree.py on every run (py2lean_t) and the model is proved equal to it (GenBridgeTree.*_eq_gen, init_eq_gen; optional obligation)",
         text="Theorems (every tree, unbounded): membership, parent info = actual storage position, ancestors = parent chain, "
              "absolute/relative depth, ValueError for non-ancestors, KeyError for foreign nodes, first ancestor of type, "
              "get_xpath = spelling of the chain, string-level injective (no two nodes share one: xpath_injective) and followable from the root "
